@@ -377,6 +377,20 @@ def run(ctx, name, kind, **kw):
         names = {"is_prime", "next_prime", "factorization", "gcd", "lcm", "gcd2", "lcm2"}
         S.concurrent_purity(ctx, S.codes_of(NT, names), jobs, rng, kw["runs"])
         S.reentrant_purity(ctx, S.codes_of(NT, names), jobs, rng, max(12, kw["runs"] // 6))
+        # the functions that WRITE module-level state (is_prime keeps a global round count): every placement of one preemption, sampled
+        # placements of two, for a composite tested next to a prime (either may be the thread that is suspended)
+        wr = S.stateful_codes(NT, writers_only=True)
+        ctx.count("state_writing_functions_in_numbertheory", len(wr))
+        sj = [("is_prime", NT.is_prime, (v,), nt.is_prime(v)) for v in (1231 * 1237, 1000003, 3215031751, 2 ** 31 - 1, 1000003 * 1000033, 2 ** 61 - 1)]
+        order = [(0, 1), (1, 0), (2, 3), (4, 5), (5, 4), (0, 0)]
+        st_i = {"i": 0}
+
+        def pick(jobs_, r):
+            st_i["i"] += 1
+            return order[(st_i["i"] - 1) % len(order)]
+        if wr:
+            S.first_use_systematic(ctx, lambda M: wr, lambda M: sj, rng, len(order) if kw["runs"] < 1000 else 4 * len(order), cls="stateful_systematic", fresh=False, bound=2,
+                                   limit=700 if kw["runs"] < 1000 else 6000, max_positions=260, pick=pick)
 
     elif kind == "first_use":
         # the first calls ever made into a fresh instance of the package are the concurrent ones (lazily built tables, memos):
